@@ -1,9 +1,9 @@
 SPECIFICATION Spec
 CONSTANTS
-  Params <- MCParams2
-  Ds = {0, 4, 8}
+  Params <- MCParams3
+  Ds = {4}
   Scores = {0, 1}
-  MaxGen = 3
+  MaxGen = 2
 INVARIANT StepsAreEnvSteps
 INVARIANT OneFitnessPerGeneration
 INVARIANT PopShape
